@@ -29,6 +29,10 @@
 (*   SenderReconnectStrandsPending  the sender re-creates the stream while *)
 (*                          the receiver is between two reads: nobody      *)
 (*                          fails the requests pending on the old stream   *)
+(*   StreamDiesUnseen       a stream created by the sender is replaced     *)
+(*                          before the receiver (which had seen the         *)
+(*                          previous one fail) ever reads from it: nobody   *)
+(*                          fails the requests pending on it                *)
 (*   FailedReconnectNilStream  a failed attempt to re-create the stream    *)
 (*                          stores the nil result as the current stream; a *)
 (*                          receiver between two reads then reads from nil *)
@@ -60,9 +64,11 @@ VARIABLES
   cpc, ctx, resp, taken,                    \* callers and their reply channels
   sendQ,
   spc, cur, sndErr, sretries, sndEpoch, raced,  \* sender (raced: the stream was cancelled while the write was in progress)
-  rpc, rcvEpoch, rmsg, rcvLast,             \* receiver (rcvLast: the stream it last read from, 0 = none / known broken)
+  rpc, rcvEpoch, rmsg, rcvLast, rcvFailed,  \* receiver (rcvLast: the stream it reads / last read from; rcvFailed: it has
+                                            \* seen that stream fail and failed the requests pending on it)
   watcher,
   broken, established,                      \* the two lock-free flags
+  wake,                                     \* the one-slot wake-up channel of the reconnect back-off ("reconnected")
   lkW, lkR, lkWait,                         \* RW lock around the stream: writer, readers, waiting writers
   epoch, alive,                             \* current stream number; state of every stream
   routers, rmBlocked,                       \* router table; receiver blocked in delivery holding the router mutex
@@ -71,8 +77,8 @@ VARIABLES
   closed,
   enqOrder, started                         \* history: hand-off order, handler start order per epoch
 
-vars == <<cpc, ctx, resp, taken, sendQ, spc, cur, sndErr, sretries, sndEpoch, raced, rpc, rcvEpoch, rmsg, rcvLast, watcher,
-          broken, established, lkW, lkR, lkWait, epoch, alive, routers, rmBlocked, c2s, s2c, up, crashes,
+vars == <<cpc, ctx, resp, taken, sendQ, spc, cur, sndErr, sretries, sndEpoch, raced, rpc, rcvEpoch, rmsg, rcvLast, rcvFailed, watcher,
+          broken, wake, established, lkW, lkR, lkWait, epoch, alive, routers, rmBlocked, c2s, s2c, up, crashes,
           mutHeld, handlers, items, closed, enqOrder, started>>
 
 Epochs == 1..MaxEpoch
@@ -84,9 +90,9 @@ Init ==
   /\ resp = [r \in Reqs |-> <<>>] /\ taken = [r \in Reqs |-> 0]
   /\ sendQ = <<>>
   /\ spc = "idle" /\ cur = 0 /\ sndErr = FALSE /\ sretries = 0 /\ sndEpoch = 0 /\ raced = FALSE
-  /\ rpc = "none" /\ rcvEpoch = 0 /\ rmsg = 0 /\ rcvLast = 0
+  /\ rpc = "none" /\ rcvEpoch = 0 /\ rmsg = 0 /\ rcvLast = 0 /\ rcvFailed = FALSE
   /\ watcher = [r \in Reqs |-> "off"]
-  /\ broken = FALSE /\ established = FALSE
+  /\ broken = FALSE /\ established = FALSE /\ wake = FALSE
   /\ lkW = "none" /\ lkR = {} /\ lkWait = {}
   /\ epoch = 0 /\ alive = [e \in Epochs |-> "unborn"]
   /\ routers = {} /\ rmBlocked = FALSE
@@ -119,7 +125,7 @@ Issue(r) ==
   /\ cpc[r] = "idle" /\ RMFree
   /\ routers' = IF HasRouter(r) THEN routers \cup {r} ELSE routers
   /\ cpc' = [cpc EXCEPT ![r] = "handoff"]
-  /\ UNCHANGED <<ctx, resp, taken, sendQ, spc, cur, sndErr, sretries, sndEpoch, raced, rpc, rcvEpoch, rmsg, rcvLast, watcher, broken,
+  /\ UNCHANGED <<ctx, resp, taken, sendQ, spc, cur, sndErr, sretries, sndEpoch, raced, rpc, rcvEpoch, rmsg, rcvLast, rcvFailed, watcher, broken, wake,
                  established, lkW, lkR, lkWait, epoch, alive, rmBlocked, c2s, s2c, up, crashes, mutHeld, handlers,
                  items, closed, enqOrder, started>>
 
@@ -131,7 +137,7 @@ HandOffQueue(r) ==
   /\ sendQ' = Append(sendQ, r)
   /\ cpc' = [cpc EXCEPT ![r] = AfterHandOff(r)]
   /\ enqOrder' = Append(enqOrder, r)
-  /\ UNCHANGED <<ctx, resp, taken, spc, cur, sndErr, sretries, sndEpoch, raced, rpc, rcvEpoch, rmsg, rcvLast, watcher, broken,
+  /\ UNCHANGED <<ctx, resp, taken, spc, cur, sndErr, sretries, sndEpoch, raced, rpc, rcvEpoch, rmsg, rcvLast, rcvFailed, watcher, broken, wake,
                  established, lkW, lkR, lkWait, epoch, alive, routers, rmBlocked, c2s, s2c, up, crashes, mutHeld,
                  handlers, items, closed, started>>
 
@@ -140,7 +146,7 @@ HandOffDirect(r) ==
   /\ spc' = "check" /\ cur' = r /\ sndErr' = FALSE
   /\ cpc' = [cpc EXCEPT ![r] = AfterHandOff(r)]
   /\ enqOrder' = Append(enqOrder, r)
-  /\ UNCHANGED <<ctx, resp, taken, sendQ, sretries, sndEpoch, raced, rpc, rcvEpoch, rmsg, rcvLast, watcher, broken, established, lkW,
+  /\ UNCHANGED <<ctx, resp, taken, sendQ, sretries, sndEpoch, raced, rpc, rcvEpoch, rmsg, rcvLast, rcvFailed, watcher, broken, wake, established, lkW,
                  lkR, lkWait, epoch, alive, routers, rmBlocked, c2s, s2c, up, crashes, mutHeld, handlers, items,
                  closed, started>>
 
@@ -160,7 +166,7 @@ OwnAnswer(r) ==
 ClosedReply(r) ==
   /\ cpc[r] = "handoff" /\ closed /\ RMFree
   /\ OwnAnswer(r)
-  /\ UNCHANGED <<ctx, taken, sendQ, spc, cur, sndErr, sretries, sndEpoch, raced, rpc, rcvEpoch, rmsg, rcvLast, watcher, broken,
+  /\ UNCHANGED <<ctx, taken, sendQ, spc, cur, sndErr, sretries, sndEpoch, raced, rpc, rcvEpoch, rmsg, rcvLast, rcvFailed, watcher, broken, wake,
                  established, lkW, lkR, lkWait, epoch, alive, rmBlocked, c2s, s2c, up, crashes, mutHeld, handlers,
                  items, closed, enqOrder, started>>
 
@@ -168,7 +174,7 @@ ClosedReply(r) ==
 CtxReply(r) ==
   /\ cpc[r] = "handoff" /\ ctx[r] = "ended" /\ "EnqIgnoresCtx" \notin Devs /\ RMFree
   /\ OwnAnswer(r)
-  /\ UNCHANGED <<ctx, taken, sendQ, spc, cur, sndErr, sretries, sndEpoch, raced, rpc, rcvEpoch, rmsg, rcvLast, watcher, broken,
+  /\ UNCHANGED <<ctx, taken, sendQ, spc, cur, sndErr, sretries, sndEpoch, raced, rpc, rcvEpoch, rmsg, rcvLast, rcvFailed, watcher, broken, wake,
                  established, lkW, lkR, lkWait, epoch, alive, rmBlocked, c2s, s2c, up, crashes, mutHeld, handlers,
                  items, closed, enqOrder, started>>
 
@@ -178,9 +184,21 @@ ForeignItem(r) ==
   /\ Foreign /\ Streaming(r) /\ cpc[r] \in {"handoff", "wait"}
   /\ Len(resp[r]) - taken[r] < ChanCap /\ Len(resp[r]) < MaxItems + ChanCap
   /\ resp' = [resp EXCEPT ![r] = Append(@, "ok")]
-  /\ UNCHANGED <<cpc, ctx, taken, sendQ, spc, cur, sndErr, sretries, sndEpoch, raced, rpc, rcvEpoch, rmsg, rcvLast, watcher, broken,
+  /\ UNCHANGED <<cpc, ctx, taken, sendQ, spc, cur, sndErr, sretries, sndEpoch, raced, rpc, rcvEpoch, rmsg, rcvLast, rcvFailed, watcher, broken, wake,
                  established, lkW, lkR, lkWait, epoch, alive, routers, rmBlocked, c2s, s2c, up, crashes, mutHeld,
                  handlers, items, closed, enqOrder, started>>
+
+\* The manager connects when it is created: dial, first stream, receiver started -
+\* before any request exists (node.connect).  When the server is down then, the
+\* sender dials with the first request instead (Dial).
+EagerConnect ==
+  /\ ~established /\ epoch = 0 /\ spc = "idle" /\ \A r \in Reqs : cpc[r] = "idle"
+  /\ up /\ ~closed /\ epoch < MaxEpoch
+  /\ epoch' = 1 /\ alive' = [alive EXCEPT ![1] = "open"]
+  /\ established' = TRUE /\ rpc' = "rlockwait" /\ rcvLast' = 1 /\ rcvFailed' = FALSE
+  /\ UNCHANGED <<cpc, ctx, resp, taken, sendQ, spc, cur, sndErr, sretries, sndEpoch, raced, rcvEpoch, rmsg, watcher, broken, wake,
+                 lkW, lkR, lkWait, routers, rmBlocked, c2s, s2c, up, crashes, mutHeld, handlers, items, closed, enqOrder,
+                 started>>
 
 \* the call consumes a response
 Take(r) ==
@@ -189,7 +207,7 @@ Take(r) ==
   /\ LET v == resp[r][taken[r] + 1] IN
        cpc' = [cpc EXCEPT ![r] = IF Streaming(r) /\ v = "ok" /\ taken'[r] < MaxItems THEN "wait"
                                   ELSE IF Streaming(r) THEN "delete" ELSE "done"]
-  /\ UNCHANGED <<ctx, resp, sendQ, spc, cur, sndErr, sretries, sndEpoch, raced, rpc, rcvEpoch, rmsg, rcvLast, watcher, broken,
+  /\ UNCHANGED <<ctx, resp, sendQ, spc, cur, sndErr, sretries, sndEpoch, raced, rpc, rcvEpoch, rmsg, rcvLast, rcvFailed, watcher, broken, wake,
                  established, lkW, lkR, lkWait, epoch, alive, routers, rmBlocked, c2s, s2c, up, crashes, mutHeld,
                  handlers, items, closed, enqOrder, started>>
 
@@ -197,7 +215,7 @@ Take(r) ==
 StreamEarlyDone(r) ==
   /\ Streaming(r) /\ cpc[r] = "wait" /\ taken[r] >= 1
   /\ cpc' = [cpc EXCEPT ![r] = "delete"]
-  /\ UNCHANGED <<ctx, resp, taken, sendQ, spc, cur, sndErr, sretries, sndEpoch, raced, rpc, rcvEpoch, rmsg, rcvLast, watcher, broken,
+  /\ UNCHANGED <<ctx, resp, taken, sendQ, spc, cur, sndErr, sretries, sndEpoch, raced, rpc, rcvEpoch, rmsg, rcvLast, rcvFailed, watcher, broken, wake,
                  established, lkW, lkR, lkWait, epoch, alive, routers, rmBlocked, c2s, s2c, up, crashes, mutHeld,
                  handlers, items, closed, enqOrder, started>>
 
@@ -206,7 +224,7 @@ TakeCtx(r) ==
   /\ cpc[r] = "wait" /\ ctx[r] = "ended"
   /\ (Kind[r] = "sw") => "OneWayConfirmIgnoresCtx" \notin Devs
   /\ cpc' = [cpc EXCEPT ![r] = IF Streaming(r) THEN "delete" ELSE "done"]
-  /\ UNCHANGED <<ctx, resp, taken, sendQ, spc, cur, sndErr, sretries, sndEpoch, raced, rpc, rcvEpoch, rmsg, rcvLast, watcher, broken,
+  /\ UNCHANGED <<ctx, resp, taken, sendQ, spc, cur, sndErr, sretries, sndEpoch, raced, rpc, rcvEpoch, rmsg, rcvLast, rcvFailed, watcher, broken, wake,
                  established, lkW, lkR, lkWait, epoch, alive, routers, rmBlocked, c2s, s2c, up, crashes, mutHeld,
                  handlers, items, closed, enqOrder, started>>
 
@@ -221,7 +239,7 @@ DeleteRouter(r) ==
   /\ rmBlocked' = IF rmBlocked /\ rmsg = r THEN FALSE ELSE rmBlocked
   /\ taken' = [taken EXCEPT ![r] = Len(resp[r])]       \* whatever was buffered is dropped
   /\ cpc' = [cpc EXCEPT ![r] = "done"]
-  /\ UNCHANGED <<ctx, resp, sendQ, spc, cur, sndErr, sretries, sndEpoch, raced, rpc, rcvEpoch, rmsg, rcvLast, watcher, broken,
+  /\ UNCHANGED <<ctx, resp, sendQ, spc, cur, sndErr, sretries, sndEpoch, raced, rpc, rcvEpoch, rmsg, rcvLast, rcvFailed, watcher, broken, wake,
                  established, lkW, lkR, lkWait, epoch, alive, c2s, s2c, up, crashes, mutHeld, handlers, items, closed,
                  enqOrder, started>>
 
@@ -234,13 +252,13 @@ CanWLock(p) == lkW = "none" /\ lkR = {}
 (***************************************************************************)
 (* Sender                                                                  *)
 (***************************************************************************)
-SUnch == UNCHANGED <<cpc, ctx, taken, rpc, rcvEpoch, rmsg, rcvLast, c2s, s2c, up, crashes, mutHeld, handlers, items, closed,
+SUnch == UNCHANGED <<cpc, ctx, taken, rpc, rcvEpoch, rmsg, rcvLast, rcvFailed, c2s, s2c, up, crashes, mutHeld, handlers, items, closed,
                      enqOrder, started>>
 
 Dequeue ==
   /\ spc = "idle" /\ sendQ # <<>>
   /\ cur' = Head(sendQ) /\ sendQ' = Tail(sendQ) /\ spc' = "check" /\ sndErr' = FALSE
-  /\ SUnch /\ UNCHANGED <<resp, sretries, sndEpoch, raced, watcher, broken, established, lkW, lkR, lkWait, epoch, alive,
+  /\ SUnch /\ UNCHANGED <<resp, sretries, sndEpoch, raced, watcher, broken, wake, established, lkW, lkR, lkWait, epoch, alive,
                           routers, rmBlocked>>
 
 \* the parent context is done: the sender exits (the select may pick this case
@@ -248,7 +266,7 @@ Dequeue ==
 SenderExit ==
   /\ spc = "idle" /\ closed
   /\ spc' = "exited"
-  /\ SUnch /\ UNCHANGED <<sendQ, resp, routers, cur, sndErr, sretries, sndEpoch, raced, watcher, broken, established, lkW, lkR,
+  /\ SUnch /\ UNCHANGED <<sendQ, resp, routers, cur, sndErr, sretries, sndEpoch, raced, watcher, broken, wake, established, lkW, lkR,
                           lkWait, epoch, alive, rmBlocked>>
 
 \* Repaired design (deviation BufferedSendQStrands absent): whoever finds the
@@ -258,14 +276,14 @@ Drain ==
   /\ closed /\ sendQ # <<>> /\ "BufferedSendQStrands" \notin Devs /\ RMFree
   /\ spc \in {"idle", "exited"}
   /\ Delivered(Head(sendQ), "err") /\ sendQ' = Tail(sendQ)
-  /\ SUnch /\ UNCHANGED <<spc, cur, sndErr, sretries, sndEpoch, raced, watcher, broken, established, lkW, lkR, lkWait, epoch,
+  /\ SUnch /\ UNCHANGED <<spc, cur, sndErr, sretries, sndEpoch, raced, watcher, broken, wake, established, lkW, lkR, lkWait, epoch,
                           alive, rmBlocked>>
 
 \* isConnected(): both flags are read here; what follows acts on these values
 CheckConnected ==
   /\ spc = "check"
   /\ spc' = IF established /\ ~broken THEN "brokenchk" ELSE IF ~established THEN "dial" ELSE "readbroken"
-  /\ SUnch /\ UNCHANGED <<sendQ, resp, cur, sndErr, sretries, sndEpoch, raced, watcher, broken, established, lkW, lkR, lkWait,
+  /\ SUnch /\ UNCHANGED <<sendQ, resp, cur, sndErr, sretries, sndEpoch, raced, watcher, broken, wake, established, lkW, lkR, lkWait,
                           epoch, alive, routers, rmBlocked>>
 
 \* never connected: dial and create the first stream (no other goroutine uses the lock yet)
@@ -274,18 +292,18 @@ Dial ==
   /\ IF up /\ ~closed /\ epoch < MaxEpoch
        THEN /\ epoch' = epoch + 1 /\ alive' = [alive EXCEPT ![epoch + 1] = "open"]
             /\ broken' = FALSE /\ established' = TRUE /\ rpc' = "rlockwait"
-            /\ rcvLast' = epoch + 1        \* the receiver is started for this stream
+            /\ rcvLast' = epoch + 1 /\ rcvFailed' = FALSE   \* the receiver is started for this stream
             /\ spc' = "brokenchk"
-       ELSE /\ broken' = TRUE /\ spc' = "brokenchk" /\ UNCHANGED <<epoch, alive, established, rpc, rcvLast>>
+       ELSE /\ broken' = TRUE /\ spc' = "brokenchk" /\ UNCHANGED <<epoch, alive, established, rpc, rcvLast, rcvFailed>>
   /\ UNCHANGED <<cpc, ctx, taken, rcvEpoch, rmsg, c2s, s2c, up, crashes, mutHeld, handlers, items, closed, enqOrder,
-                 started, sendQ, resp, cur, sndErr, sretries, sndEpoch, raced, watcher, lkW, lkR, lkWait, routers, rmBlocked>>
+                 started, sendQ, resp, cur, sndErr, sretries, sndEpoch, raced, watcher, lkW, lkR, lkWait, routers, rmBlocked, wake>>
 
 \* connect(): "if c.streamBroken.get() { c.reconnect(1) }"
 ReadBrokenForReconnect ==
   /\ spc = "readbroken"
   /\ spc' = IF broken THEN "s_lockwait" ELSE "brokenchk"
   /\ sretries' = 0
-  /\ SUnch /\ UNCHANGED <<sendQ, resp, cur, sndErr, sndEpoch, raced, watcher, broken, established, lkW, lkR, lkWait, epoch,
+  /\ SUnch /\ UNCHANGED <<sendQ, resp, cur, sndErr, sndEpoch, raced, watcher, broken, wake, established, lkW, lkR, lkWait, epoch,
                           alive, routers, rmBlocked>>
 
 \* reconnect(1): Lock().  Deviation StaleBrokenRead: a blocking Lock; repaired
@@ -299,25 +317,30 @@ SLockWait ==
        ELSE IF "StaleBrokenRead" \in Devs
               THEN lkWait' = lkWait \cup {"snd"} /\ "snd" \notin lkWait /\ UNCHANGED <<lkW, spc>>
               ELSE spc' = "brokenchk" /\ UNCHANGED <<lkW, lkWait>>
-  /\ SUnch /\ UNCHANGED <<sendQ, resp, cur, sndErr, sretries, sndEpoch, raced, watcher, broken, established, lkR, epoch, alive,
+  /\ SUnch /\ UNCHANGED <<sendQ, resp, cur, sndErr, sretries, sndEpoch, raced, watcher, broken, wake, established, lkR, epoch, alive,
                           routers, rmBlocked>>
 
-NewStreamOK == up /\ ~closed /\ epoch < MaxEpoch
+NewStreamOK == up /\ ~closed
+\* MaxEpoch only bounds the model: a stream that would be created beyond the bound is
+\* not created and the behaviour ends there (such states are excluded from the
+\* properties about settled states, see BoundHit)
+WithinBound == (broken /\ NewStreamOK) => epoch < MaxEpoch
 \* Deviation FailedReconnectNilStream: the failed attempt's nil result replaces the
 \* current stream object; repaired design: the old (broken) object is kept.
 FailedAttempt == IF "FailedReconnectNilStream" \in Devs /\ epoch > 0 THEN [alive EXCEPT ![epoch] = "nil"] ELSE alive
 
 SLocked ==
-  /\ spc = "s_locked" /\ lkW = "snd"
+  /\ spc = "s_locked" /\ lkW = "snd" /\ WithinBound
   /\ lkW' = "none"
   /\ IF ~broken
-       THEN spc' = "brokenchk" /\ UNCHANGED <<epoch, alive, broken, sretries>>
+       THEN spc' = "brokenchk" /\ UNCHANGED <<epoch, alive, broken, wake, sretries>>
        ELSE IF NewStreamOK
               THEN /\ epoch' = epoch + 1 /\ alive' = [alive EXCEPT ![epoch + 1] = "open"]
                    /\ broken' = FALSE /\ spc' = "brokenchk" /\ UNCHANGED sretries
+                   /\ wake' = ("RcvSleepsThroughReconnect" \notin Devs)     \* non-blocking send into the wake-up channel
               ELSE /\ UNCHANGED epoch /\ alive' = FailedAttempt
-                   /\ IF sretries >= 1 THEN broken' = TRUE /\ spc' = "brokenchk" /\ UNCHANGED sretries
-                      ELSE spc' = "s_sleep" /\ UNCHANGED <<broken, sretries>>
+                   /\ IF sretries >= 1 THEN broken' = TRUE /\ spc' = "brokenchk" /\ UNCHANGED <<sretries, wake>>
+                      ELSE spc' = "s_sleep" /\ UNCHANGED <<broken, wake, sretries>>
   /\ SUnch /\ UNCHANGED <<sendQ, resp, cur, sndErr, sndEpoch, raced, watcher, established, lkR, lkWait, routers, rmBlocked>>
 
 \* the sender's single back-off sleep (its timer does fire: client-internal)
@@ -325,7 +348,14 @@ SSleepDone ==
   /\ spc = "s_sleep"
   /\ IF closed THEN spc' = "brokenchk" /\ UNCHANGED sretries
      ELSE spc' = "s_lockwait" /\ sretries' = sretries + 1
-  /\ SUnch /\ UNCHANGED <<sendQ, resp, cur, sndErr, sndEpoch, raced, watcher, broken, established, lkW, lkR, lkWait, epoch,
+  /\ SUnch /\ UNCHANGED <<sendQ, resp, cur, sndErr, sndEpoch, raced, watcher, broken, wake, established, lkW, lkR, lkWait, epoch,
+                          alive, routers, rmBlocked>>
+
+\* the sender's sleep listens to the same wake-up channel
+SSleepWoken ==
+  /\ spc = "s_sleep" /\ wake /\ ~closed
+  /\ spc' = "s_lockwait" /\ wake' = FALSE
+  /\ SUnch /\ UNCHANGED <<sendQ, resp, cur, sndErr, sretries, sndEpoch, raced, watcher, broken, established, lkW, lkR, lkWait, epoch,
                           alive, routers, rmBlocked>>
 
 \* "if c.streamBroken.get() { route stream-down error; continue }"
@@ -334,7 +364,7 @@ BrokenCheck ==
   /\ IF broken
        THEN /\ RMFree /\ Delivered(cur, "err") /\ spc' = "idle" /\ cur' = 0
        ELSE /\ spc' = "ctxchk" /\ UNCHANGED <<resp, routers, cur>>
-  /\ SUnch /\ UNCHANGED <<sendQ, sndErr, sretries, sndEpoch, raced, watcher, broken, established, lkW, lkR, lkWait, epoch,
+  /\ SUnch /\ UNCHANGED <<sendQ, sndErr, sretries, sndEpoch, raced, watcher, broken, wake, established, lkW, lkR, lkWait, epoch,
                           alive, rmBlocked>>
 
 \* sendMsg: don't send if the context has already ended
@@ -343,7 +373,7 @@ CtxCheck ==
   /\ IF ctx[cur] = "ended"
        THEN spc' = "confirm" /\ sndErr' = TRUE
        ELSE spc' = "rlockwait" /\ UNCHANGED sndErr
-  /\ SUnch /\ UNCHANGED <<sendQ, resp, cur, sretries, sndEpoch, raced, watcher, broken, established, lkW, lkR, lkWait, epoch,
+  /\ SUnch /\ UNCHANGED <<sendQ, resp, cur, sretries, sndEpoch, raced, watcher, broken, wake, established, lkW, lkR, lkWait, epoch,
                           alive, routers, rmBlocked>>
 
 SRLock ==
@@ -351,7 +381,7 @@ SRLock ==
   /\ lkR' = lkR \cup {"snd"} /\ sndEpoch' = epoch /\ raced' = FALSE
   /\ watcher' = [watcher EXCEPT ![cur] = "armed"]
   /\ spc' = "sending"
-  /\ SUnch /\ UNCHANGED <<sendQ, resp, cur, sndErr, sretries, broken, established, lkW, lkWait, epoch, alive, routers,
+  /\ SUnch /\ UNCHANGED <<sendQ, resp, cur, sndErr, sretries, broken, wake, established, lkW, lkWait, epoch, alive, routers,
                           rmBlocked>>
 
 \* SendMsg returns: the message is on its way, or the stream is not usable
@@ -359,17 +389,17 @@ SendDone ==
   /\ spc = "sending"
   /\ \/ /\ alive[sndEpoch] = "open" /\ Len(c2s[sndEpoch]) < Window
         /\ c2s' = [c2s EXCEPT ![sndEpoch] = Append(@, cur)]
-        /\ UNCHANGED <<broken, sndErr>>
+        /\ UNCHANGED <<broken, wake, sndErr>>
      \/ /\ alive[sndEpoch] \notin {"open", "nil"}
-        /\ broken' = TRUE /\ sndErr' = TRUE /\ UNCHANGED c2s
+        /\ broken' = TRUE /\ sndErr' = TRUE /\ UNCHANGED <<c2s, wake>>
      \/ \* the write raced with the cancellation of the stream: SendMsg reports
         \* success but the message never arrives
         /\ alive[sndEpoch] = "cancelled" /\ raced
-        /\ UNCHANGED <<broken, sndErr, c2s>>
+        /\ UNCHANGED <<broken, wake, sndErr, c2s>>
   /\ watcher' = [watcher EXCEPT ![cur] = "off"]
   /\ lkR' = lkR \ {"snd"}
   /\ spc' = "confirm"
-  /\ UNCHANGED <<cpc, ctx, taken, rpc, rcvEpoch, rmsg, rcvLast, s2c, up, crashes, mutHeld, handlers, items, closed, enqOrder,
+  /\ UNCHANGED <<cpc, ctx, taken, rpc, rcvEpoch, rmsg, rcvLast, rcvFailed, s2c, up, crashes, mutHeld, handlers, items, closed, enqOrder,
                  started, sendQ, resp, cur, sretries, sndEpoch, raced, established, lkW, lkWait, epoch, alive, routers,
                  rmBlocked>>
 
@@ -377,7 +407,7 @@ SendDone ==
 SendNil ==
   /\ spc = "sending" /\ alive[sndEpoch] = "nil"
   /\ spc' = "panicked"
-  /\ SUnch /\ UNCHANGED <<sendQ, resp, cur, sndErr, sretries, sndEpoch, raced, watcher, broken, established, lkW, lkR, lkWait,
+  /\ SUnch /\ UNCHANGED <<sendQ, resp, cur, sndErr, sretries, sndEpoch, raced, watcher, broken, wake, established, lkW, lkR, lkWait,
                           epoch, alive, routers, rmBlocked>>
 
 \* unblock a send-waiting one-way caller; then report a send error
@@ -386,7 +416,7 @@ Confirm ==
   /\ IF Kind[cur] = "sw" THEN Delivered(cur, "conf")
      ELSE IF sndErr THEN Delivered(cur, "err") ELSE UNCHANGED <<resp, routers>>
   /\ spc' = "idle" /\ cur' = 0
-  /\ SUnch /\ UNCHANGED <<sendQ, sndErr, sretries, sndEpoch, raced, watcher, broken, established, lkW, lkR, lkWait, epoch,
+  /\ SUnch /\ UNCHANGED <<sendQ, sndErr, sretries, sndEpoch, raced, watcher, broken, wake, established, lkW, lkR, lkWait, epoch,
                           alive, rmBlocked>>
 
 \* the cancellation watcher of the request being written: the context ended
@@ -396,7 +426,7 @@ WatcherFires(r) ==
   /\ watcher' = [watcher EXCEPT ![r] = "off"]
   /\ alive' = IF epoch > 0 /\ alive[epoch] = "open" THEN [alive EXCEPT ![epoch] = "cancelled"] ELSE alive
   /\ raced' = (raced \/ (spc = "sending" /\ sndEpoch = epoch))
-  /\ UNCHANGED <<cpc, ctx, resp, taken, sendQ, spc, cur, sndErr, sretries, sndEpoch, rpc, rcvEpoch, rmsg, rcvLast, broken,
+  /\ UNCHANGED <<cpc, ctx, resp, taken, sendQ, spc, cur, sndErr, sretries, sndEpoch, rpc, rcvEpoch, rmsg, rcvLast, rcvFailed, broken, wake,
                  established, lkW, lkR, lkWait, epoch, routers, rmBlocked, c2s, s2c, up, crashes, mutHeld, handlers,
                  items, closed, enqOrder, started>>
 
@@ -406,15 +436,26 @@ WatcherFires(r) ==
 RUnch == UNCHANGED <<cpc, ctx, taken, sendQ, spc, cur, sndErr, sretries, sndEpoch, raced, watcher, established, c2s, up,
                      crashes, mutHeld, handlers, items, closed, enqOrder, started>>
 
+\* The receiver finds (under the read lock) a stream other than the one it last read.
+\* That is harmless only if it has seen its own stream fail and exactly one stream was
+\* created since.  Deviations: SenderReconnectStrandsPending - no such test at all;
+\* StreamDiesUnseen - the test compares stream objects and is skipped once the receiver
+\* has seen its own stream fail, so a stream created by the sender that is replaced
+\* before the receiver ever reads from it goes unnoticed.
+ReplacedUnseen ==
+  /\ "SenderReconnectStrandsPending" \notin Devs
+  /\ rcvLast # 0 /\ rcvLast # epoch
+  /\ IF "StreamDiesUnseen" \in Devs THEN ~rcvFailed ELSE ~(rcvFailed /\ epoch = rcvLast + 1)
+
 RRLock ==
   /\ rpc = "rlockwait" /\ CanRLock
-  /\ IF rcvLast # 0 /\ rcvLast # epoch /\ "SenderReconnectStrandsPending" \notin Devs
-       THEN \* repaired design: the stream was replaced behind the receiver's back (by the
-            \* sender) before it noticed the failure of the old one: whatever still waits
-            \* for a reply on the old stream is lost and must be failed
-            /\ rpc' = "cancelpend2" /\ rcvLast' = epoch /\ UNCHANGED <<lkR, rcvEpoch>>
-       ELSE /\ lkR' = lkR \cup {"rcv"} /\ rcvEpoch' = epoch /\ rcvLast' = epoch /\ rpc' = "recv"
-  /\ RUnch /\ UNCHANGED <<resp, rmsg, broken, lkW, lkWait, epoch, alive, routers, rmBlocked, s2c>>
+  /\ IF ReplacedUnseen
+       THEN \* repaired design: a stream was replaced behind the receiver's back: whatever
+            \* still waits for a reply on a replaced stream is lost and must be failed
+            /\ rpc' = "cancelpend2" /\ rcvLast' = epoch /\ rcvFailed' = FALSE /\ UNCHANGED <<lkR, rcvEpoch>>
+       ELSE /\ lkR' = lkR \cup {"rcv"} /\ rcvEpoch' = epoch /\ rpc' = "recv"
+            /\ rcvLast' = epoch /\ rcvFailed' = (rcvFailed /\ rcvLast = epoch)
+  /\ RUnch /\ UNCHANGED <<resp, rmsg, broken, wake, lkW, lkWait, epoch, alive, routers, rmBlocked, s2c>>
 
 CancelPending2 ==
   /\ rpc = "cancelpend2" /\ RMFree
@@ -422,14 +463,15 @@ CancelPending2 ==
   /\ resp' = [r \in Reqs |-> IF r \in routers THEN Append(resp[r], "err") ELSE resp[r]]
   /\ routers' = {r \in routers : Streaming(r)}
   /\ rpc' = "rlockwait"
-  /\ RUnch /\ UNCHANGED <<rcvLast, rcvEpoch, rmsg, broken, lkW, lkR, lkWait, epoch, alive, rmBlocked, s2c>>
+  /\ RUnch /\ UNCHANGED <<rcvLast, rcvFailed, rcvEpoch, rmsg, broken, wake, lkW, lkR, lkWait, epoch, alive, rmBlocked, s2c>>
 
-\* RecvMsg returns a message (the read lock is released before routing)
+\* RecvMsg returns a message (the read lock is released before routing).  Replies
+\* that were on their way when the stream died or was cancelled may still be read.
 RecvOk ==
-  /\ rpc = "recv" /\ alive[rcvEpoch] = "open" /\ s2c[rcvEpoch] # <<>>
+  /\ rpc = "recv" /\ alive[rcvEpoch] # "nil" /\ s2c[rcvEpoch] # <<>>
   /\ rmsg' = Head(s2c[rcvEpoch]) /\ s2c' = [s2c EXCEPT ![rcvEpoch] = Tail(@)]
   /\ lkR' = lkR \ {"rcv"} /\ rpc' = "route"
-  /\ RUnch /\ UNCHANGED <<rcvLast, resp, rcvEpoch, broken, lkW, lkWait, epoch, alive, routers, rmBlocked>>
+  /\ RUnch /\ UNCHANGED <<rcvLast, rcvFailed, resp, rcvEpoch, broken, wake, lkW, lkWait, epoch, alive, routers, rmBlocked>>
 
 \* route the response.  A full streaming channel blocks the receiver; with
 \* deviation StreamRouteBlocksUnderRM it blocks holding the router mutex.
@@ -439,18 +481,18 @@ Route ==
        THEN /\ Delivered(rmsg, "ok") /\ rmBlocked' = FALSE
             /\ rpc' = IF closed THEN "exiting" ELSE "rlockwait"
        ELSE /\ rmBlocked' = TRUE /\ UNCHANGED <<resp, routers, rpc>>
-  /\ RUnch /\ UNCHANGED <<rcvLast, rcvEpoch, rmsg, broken, lkW, lkR, lkWait, epoch, alive, s2c>>
+  /\ RUnch /\ UNCHANGED <<rcvLast, rcvFailed, rcvEpoch, rmsg, broken, wake, lkW, lkR, lkWait, epoch, alive, s2c>>
 
 \* RecvMsg on the nil stream object: nil dereference, the process dies
 RecvNil ==
   /\ rpc = "recv" /\ alive[rcvEpoch] = "nil"
   /\ rpc' = "panicked"
-  /\ RUnch /\ UNCHANGED <<rcvLast, resp, rcvEpoch, rmsg, broken, lkW, lkR, lkWait, epoch, alive, routers, rmBlocked, s2c>>
+  /\ RUnch /\ UNCHANGED <<rcvLast, rcvFailed, resp, rcvEpoch, rmsg, broken, wake, lkW, lkR, lkWait, epoch, alive, routers, rmBlocked, s2c>>
 
 \* RecvMsg fails: set the flag, release the read lock
 RecvErr ==
   /\ rpc = "recv" /\ alive[rcvEpoch] \notin {"open", "nil"}
-  /\ broken' = TRUE /\ lkR' = lkR \ {"rcv"} /\ rpc' = "cancelpend" /\ rcvLast' = 0
+  /\ broken' = TRUE /\ lkR' = lkR \ {"rcv"} /\ rpc' = "cancelpend" /\ rcvFailed' = TRUE /\ UNCHANGED <<rcvLast, wake>>
   /\ RUnch /\ UNCHANGED <<resp, rcvEpoch, rmsg, lkW, lkWait, epoch, alive, routers, rmBlocked, s2c>>
 
 \* every pending request is answered "stream is down"
@@ -460,47 +502,49 @@ CancelPending ==
   /\ resp' = [r \in Reqs |-> IF r \in routers THEN Append(resp[r], "err") ELSE resp[r]]
   /\ routers' = {r \in routers : Streaming(r)}
   /\ rpc' = "r_lockwait"
-  /\ RUnch /\ UNCHANGED <<rcvLast, rcvEpoch, rmsg, broken, lkW, lkR, lkWait, epoch, alive, rmBlocked, s2c>>
+  /\ RUnch /\ UNCHANGED <<rcvLast, rcvFailed, rcvEpoch, rmsg, broken, wake, lkW, lkR, lkWait, epoch, alive, rmBlocked, s2c>>
 
 RLockWait ==
   /\ rpc = "r_lockwait"
   /\ IF CanWLock("rcv")
        THEN lkW' = "rcv" /\ lkWait' = lkWait \ {"rcv"} /\ rpc' = "r_locked"
        ELSE lkWait' = lkWait \cup {"rcv"} /\ "rcv" \notin lkWait /\ UNCHANGED <<lkW, rpc>>
-  /\ RUnch /\ UNCHANGED <<rcvLast, resp, rcvEpoch, rmsg, broken, lkR, epoch, alive, routers, rmBlocked, s2c>>
+  /\ RUnch /\ UNCHANGED <<rcvLast, rcvFailed, resp, rcvEpoch, rmsg, broken, wake, lkR, epoch, alive, routers, rmBlocked, s2c>>
 
 AfterReconnect == IF closed THEN "exiting" ELSE "rlockwait"
 
 RLocked ==
-  /\ rpc = "r_locked" /\ lkW = "rcv"
+  /\ rpc = "r_locked" /\ lkW = "rcv" /\ WithinBound
   /\ lkW' = "none"
   /\ IF ~broken
-       THEN rpc' = AfterReconnect /\ UNCHANGED <<epoch, alive, broken>>
+       THEN rpc' = AfterReconnect /\ UNCHANGED <<epoch, alive, broken, wake>>
        ELSE IF NewStreamOK
               THEN /\ epoch' = epoch + 1 /\ alive' = [alive EXCEPT ![epoch + 1] = "open"]
                    /\ broken' = FALSE /\ rpc' = AfterReconnect
-              ELSE rpc' = "r_sleep" /\ alive' = FailedAttempt /\ UNCHANGED <<epoch, broken>>
-  /\ RUnch /\ UNCHANGED <<rcvLast, resp, rcvEpoch, rmsg, lkR, lkWait, routers, rmBlocked, s2c>>
+                   /\ wake' = ("RcvSleepsThroughReconnect" \notin Devs)
+              ELSE rpc' = "r_sleep" /\ alive' = FailedAttempt /\ UNCHANGED <<epoch, broken, wake>>
+  /\ RUnch /\ UNCHANGED <<rcvLast, rcvFailed, resp, rcvEpoch, rmsg, lkR, lkWait, routers, rmBlocked, s2c>>
 
 \* the receiver's back-off timer: ENVIRONMENT (it fires after up to MaxDelay)
 TimerFire ==
   /\ rpc = "r_sleep" /\ ~closed
   /\ rpc' = "r_lockwait"
-  /\ RUnch /\ UNCHANGED <<rcvLast, resp, rcvEpoch, rmsg, broken, lkW, lkR, lkWait, epoch, alive, routers, rmBlocked, s2c>>
+  /\ RUnch /\ UNCHANGED <<rcvLast, rcvFailed, resp, rcvEpoch, rmsg, broken, wake, lkW, lkR, lkWait, epoch, alive, routers, rmBlocked, s2c>>
 
 \* the sleep also ends when the node is closed, and - repaired design - when
 \* somebody else has re-created the stream (wake-up channel)
 SleepInterrupted ==
   /\ rpc = "r_sleep"
-  /\ closed \/ ("RcvSleepsThroughReconnect" \notin Devs /\ ~broken)
-  /\ rpc' = IF closed THEN "exiting" ELSE "r_lockwait"
-  /\ RUnch /\ UNCHANGED <<rcvLast, resp, rcvEpoch, rmsg, broken, lkW, lkR, lkWait, epoch, alive, routers, rmBlocked, s2c>>
+  /\ closed \/ wake
+  /\ IF closed THEN rpc' = "exiting" /\ UNCHANGED wake
+     ELSE rpc' = "r_lockwait" /\ wake' = FALSE        \* the token is consumed
+  /\ RUnch /\ UNCHANGED <<rcvLast, rcvFailed, resp, rcvEpoch, rmsg, broken, lkW, lkR, lkWait, epoch, alive, routers, rmBlocked, s2c>>
 
 \* a receiver between two steps notices the closed node
 RcvNoticeClosed ==
   /\ rpc = "rlockwait" /\ closed
   /\ rpc' = "exiting"
-  /\ RUnch /\ UNCHANGED <<rcvLast, resp, rcvEpoch, rmsg, broken, lkW, lkR, lkWait, epoch, alive, routers, rmBlocked, s2c>>
+  /\ RUnch /\ UNCHANGED <<rcvLast, rcvFailed, resp, rcvEpoch, rmsg, broken, wake, lkW, lkR, lkWait, epoch, alive, routers, rmBlocked, s2c>>
 
 \* The receiver returns.  Deviation RcvExitSkipsCancelPending: requests that are
 \* still waiting for a reply are left without an answer (the code cancels pending
@@ -514,13 +558,13 @@ ReceiverExit ==
             /\ resp' = [r \in Reqs |-> IF r \in routers THEN Append(resp[r], "err") ELSE resp[r]]
             /\ routers' = {r \in routers : Streaming(r)}
   /\ rpc' = "exited"
-  /\ RUnch /\ UNCHANGED <<rcvLast, rcvEpoch, rmsg, broken, lkW, lkR, lkWait, epoch, alive, rmBlocked, s2c>>
+  /\ RUnch /\ UNCHANGED <<rcvLast, rcvFailed, rcvEpoch, rmsg, broken, wake, lkW, lkR, lkWait, epoch, alive, rmBlocked, s2c>>
 
 (***************************************************************************)
 (* Server: receive loop with the hand-over mutex, handlers                 *)
 (***************************************************************************)
-VUnch == UNCHANGED <<cpc, ctx, resp, taken, sendQ, spc, cur, sndErr, sretries, sndEpoch, raced, rpc, rcvEpoch, rmsg, rcvLast, watcher,
-                     broken, established, lkW, lkR, lkWait, epoch, routers, rmBlocked, up, crashes, closed, enqOrder>>
+VUnch == UNCHANGED <<cpc, ctx, resp, taken, sendQ, spc, cur, sndErr, sretries, sndEpoch, raced, rpc, rcvEpoch, rmsg, rcvLast, rcvFailed, watcher,
+                     broken, wake, established, lkW, lkR, lkWait, epoch, routers, rmBlocked, up, crashes, closed, enqOrder>>
 
 \* the loop takes the next request of connection e and starts its handler;
 \* it can do so only when the previous handler has released the mutex
@@ -547,20 +591,26 @@ HandlerItem(e, r) ==
   /\ VUnch /\ UNCHANGED <<alive, c2s, mutHeld, handlers, started>>
 
 \* the handler returns (implicit release); two-way and streaming handlers reply
-HandlerReturn(e, r) ==
-  /\ <<e, r>> \in handlers
+\* (in the code: the handler function returns - HandlerLeaves - and the connection's
+\* send goroutine writes the reply - ReplyOnWire; the trace specification binds the
+\* two halves to their own events)
+HandlerLeaves(e, r) ==
   /\ handlers' = handlers \ {<<e, r>>}
   /\ mutHeld' = IF mutHeld[e] = r THEN [mutHeld EXCEPT ![e] = 0] ELSE mutHeld
-  /\ s2c' = IF Kind[r] \in {"two", "stream"} /\ alive[e] = "open" THEN [s2c EXCEPT ![e] = Append(@, r)] ELSE s2c
+ReplyOnWire(e, r) ==
+  s2c' = IF Kind[r] \in {"two", "stream"} /\ alive[e] = "open" THEN [s2c EXCEPT ![e] = Append(@, r)] ELSE s2c
+HandlerReturn(e, r) ==
+  /\ <<e, r>> \in handlers
+  /\ HandlerLeaves(e, r) /\ ReplyOnWire(e, r)
   /\ VUnch /\ UNCHANGED <<alive, c2s, items, started>>
 
 (***************************************************************************)
 (* Environment                                                             *)
 (***************************************************************************)
-EUnch == UNCHANGED <<cpc, resp, taken, sendQ, spc, cur, sndErr, sretries, sndEpoch, raced, rpc, rcvEpoch, rmsg, rcvLast, watcher,
-                     broken, established, lkW, lkR, lkWait, epoch, routers, rmBlocked, enqOrder, started>>
-EUnchNoRaced == UNCHANGED <<cpc, resp, taken, sendQ, spc, cur, sndErr, sretries, sndEpoch, rpc, rcvEpoch, rmsg, rcvLast, watcher,
-                     broken, established, lkW, lkR, lkWait, epoch, routers, rmBlocked, enqOrder, started>>
+EUnch == UNCHANGED <<cpc, resp, taken, sendQ, spc, cur, sndErr, sretries, sndEpoch, raced, rpc, rcvEpoch, rmsg, rcvLast, rcvFailed, watcher,
+                     broken, wake, established, lkW, lkR, lkWait, epoch, routers, rmBlocked, enqOrder, started>>
+EUnchNoRaced == UNCHANGED <<cpc, resp, taken, sendQ, spc, cur, sndErr, sretries, sndEpoch, rpc, rcvEpoch, rmsg, rcvLast, rcvFailed, watcher,
+                     broken, wake, established, lkW, lkR, lkWait, epoch, routers, rmBlocked, enqOrder, started>>
 
 CtxEnd(r) ==
   /\ r \in CanCancel /\ ctx[r] = "live" /\ cpc[r] # "done"
@@ -571,7 +621,8 @@ Crash ==
   /\ up /\ crashes < MaxCrash
   /\ up' = FALSE /\ crashes' = crashes + 1
   /\ alive' = [e \in Epochs |-> IF alive[e] = "open" THEN "dead" ELSE alive[e]]
-  /\ c2s' = [e \in Epochs |-> <<>>] /\ s2c' = [e \in Epochs |-> <<>>]
+  /\ c2s' = [e \in Epochs |-> <<>>]         \* what the server has not read is lost;
+  /\ UNCHANGED s2c                           \* what it has sent may still arrive
   /\ handlers' = {} /\ mutHeld' = [e \in Epochs |-> 0]
   /\ EUnch /\ UNCHANGED <<ctx, items, closed>>
 
@@ -590,10 +641,11 @@ Close ==
 (***************************************************************************)
 (* Next-state relation                                                     *)
 (***************************************************************************)
-CallerStep == \E r \in Reqs : Issue(r) \/ HandOffQueue(r) \/ HandOffDirect(r) \/ ClosedReply(r) \/ CtxReply(r)
+CallerStep == EagerConnect
+              \/ \E r \in Reqs : Issue(r) \/ HandOffQueue(r) \/ HandOffDirect(r) \/ ClosedReply(r) \/ CtxReply(r)
                                \/ Take(r) \/ TakeCtx(r) \/ DeleteRouter(r) \/ StreamEarlyDone(r)
 SenderStep == Dequeue \/ SenderExit \/ Drain \/ CheckConnected \/ Dial \/ ReadBrokenForReconnect \/ SLockWait \/ SLocked
-              \/ SSleepDone \/ BrokenCheck \/ CtxCheck \/ SRLock \/ SendDone \/ SendNil \/ Confirm
+              \/ SSleepDone \/ SSleepWoken \/ BrokenCheck \/ CtxCheck \/ SRLock \/ SendDone \/ SendNil \/ Confirm
               \/ \E r \in Reqs : WatcherFires(r)
 ReceiverStep == RRLock \/ CancelPending2 \/ RecvOk \/ Route \/ RecvNil \/ RecvErr \/ CancelPending \/ RLockWait \/ RLocked \/ SleepInterrupted
                 \/ RcvNoticeClosed \/ ReceiverExit
@@ -611,9 +663,10 @@ Spec == Init /\ [][Next]_vars
 (* unless the environment does something - in particular unless a back-off *)
 (* timer fires.                                                            *)
 (***************************************************************************)
-Settled == ~ENABLED (ClientInternal \/ ServerStep)
+BoundHit == (spc = "s_locked" \/ rpc = "r_locked") /\ ~WithinBound
+Settled == ~ENABLED (ClientInternal \/ ServerStep) /\ ~BoundHit
 \* for "whatever the nodes are doing": the server is environment too
-SettledClient == ~ENABLED ClientInternal
+SettledClient == ~ENABLED ClientInternal /\ ~BoundHit
 
 \* C03: handlers start in hand-off order (the hand-off happens inside the invocation)
 IsSubSeqOrder(s, order) ==
@@ -631,8 +684,20 @@ ConfirmOnlyOneWay == \A r \in Reqs : \A i \in DOMAIN resp[r] : resp[r][i] = "con
 CtxPrompt == SettledClient => \A r \in Reqs : ctx[r] = "ended" => cpc[r] \in {"idle", "done"}
 \* C09 / C10: with the server up and every handler willing, nothing stays
 \* outstanding on a node that is not closed: requests are answered, or failed,
-\* without waiting for a back-off timer
-NoStrandedCall == (Settled /\ up /\ ~closed) => \A r \in Reqs : cpc[r] \in {"idle", "done"}
+\* without waiting for a back-off timer.  One exemption: a request that was lost
+\* with its stream (nothing of it is left on a stream that is still open) while the
+\* receiver, still busy re-creating an EARLIER stream, sleeps in its back-off:
+\* its failure is reported when the back-off timer fires or the next call
+\* re-creates the stream - late, not never (NoPermanentStrand).
+Lost(r) == \A e \in Epochs : alive[e] = "open" =>        \* nothing of r is left on a stream that is still open
+              /\ \A i \in DOMAIN c2s[e] : c2s[e][i] # r
+              /\ \A i \in DOMAIN s2c[e] : s2c[e][i] # r
+              /\ <<e, r>> \notin handlers
+NoStrandedCall == (Settled /\ up /\ ~closed) =>
+                     \A r \in Reqs : cpc[r] \in {"idle", "done"} \/ (rpc = "r_sleep" /\ Lost(r))
+\* C09: nothing is stuck for good - also not once every timer has fired
+SettledT == Settled /\ ~ENABLED TimerFire
+NoPermanentStrand == (SettledT /\ up /\ ~closed) => \A r \in Reqs : cpc[r] \in {"idle", "done"}
 \* C09: the lock wedge itself
 NoLockWedge == ~(spc = "s_lockwait" /\ "snd" \in lkWait /\ rpc = "recv" /\ alive[rcvEpoch] = "open")
 \* C10: no goroutine of the library dies on a nil stream
@@ -642,5 +707,6 @@ CloseTerminates == (SettledClient /\ closed) =>
                      /\ spc = "exited" /\ rpc \in {"none", "exited"}
                      /\ \A r \in Reqs : cpc[r] \in {"idle", "done"} /\ watcher[r] = "off"
 \* C18: a settled, healthy node keeps no router
-NoResidue == (Settled /\ up /\ ~closed) => routers = {}
+NoResidue == (Settled /\ up /\ ~closed) => \A r \in routers : rpc = "r_sleep" /\ Lost(r)     \* (same exemption)
+NoPermanentResidue == (SettledT /\ up /\ ~closed) => routers = {}
 =============================================================================
